@@ -50,7 +50,9 @@ def main():
         elif state["n"] % 50 == 0:
             dump()
 
-    corpus = tempfile.mkdtemp(prefix="bcfuzz.")
+    # (libFuzzer ends the process itself, so the directory is removed by the parent: harness/core.py deletes <out>.corpus)
+    corpus = out + ".corpus"
+    os.makedirs(corpus, exist_ok=True)
     # Hypothesis rejects byte strings that are too short for the draws of a spec, and a rejected input shows no new coverage,
     # so an empty corpus never gets off the ground: start from a few long pseudo-random byte strings (a pure function of the seed)
     import hashlib
